@@ -174,6 +174,11 @@ fn write_doc<W: Write>(sink: &mut W, d: &Value, nl: bool) -> (Vec<&'static str>,
     write_doc_dropping(sink, d, nl, 0)
 }
 
+thread_local! {
+    /// when set, the newline option is set again (to the same value) between links: no effect on the text
+    static RESET_NL: std::cell::Cell<bool> = std::cell::Cell::new(false);
+}
+
 /// `drop_mask`: link i's attribute writer is dropped without finish() when bit i is set (an API use as
 /// legitimate as finishing it: the document-level finish() must still report every failure)
 fn write_doc_dropping<W: Write>(sink: &mut W, d: &Value, nl: bool, drop_mask: u64) -> (Vec<&'static str>, &'static str) {
@@ -183,6 +188,9 @@ fn write_doc_dropping<W: Write>(sink: &mut W, d: &Value, nl: bool, drop_mask: u6
     }
     let mut lf = vec![];
     for (li, lk) in d.as_array().unwrap().iter().enumerate() {
+        if li > 0 && RESET_NL.with(|c| c.get()) {
+            w.set_add_newlines(nl);
+        }
         let mut a = w.link(&vstr(&lk["target"]));
         for at in lk["attrs"].as_array().unwrap() {
             let key = vstr(&at["key"]);
@@ -492,7 +500,9 @@ pub fn rec_link(args: &Args) {
                     for (mode, mname) in [(1u8, "once"), (2u8, "from")] {
                         let mut sink = FaultSink { calls: vec![], mode, k };
                         let mask = [0u64, u64::MAX, 0xAAAA_AAAA_AAAA_AAAA, 0x5555_5555_5555_5555][(k + mode as usize) % 4];
+                        RESET_NL.with(|c| c.set(k % 3 == 1));
                         let res = guarded(|| write_doc_dropping(&mut sink, d, nl, mask));
+                        RESET_NL.with(|c| c.set(false));
                         out.ev(json!({"op": "fault", "d": d, "nl": nl, "mode": mname, "k": k, "panicked": res.is_none(),
                                       "calls": sink.calls.iter().map(|c| json!([cps(&c.0), c.1])).collect::<Vec<_>>(),
                                       "lf": res.as_ref().map(|b| json!(b.0)).unwrap_or(json!([])),
@@ -527,7 +537,9 @@ pub fn replay_linkfault(args: &Args) {
                 rep.evaluated += 1;
                 let mut sink = FaultSink { calls: vec![], mode, k };
                 let mask = [0u64, u64::MAX, 0xAAAA_AAAA_AAAA_AAAA, 0x5555_5555_5555_5555][(k + mode as usize) % 4];
+                RESET_NL.with(|c| c.set(k % 3 == 1));
                 let res = guarded(|| write_doc_dropping(&mut sink, d, nl, mask));
+                RESET_NL.with(|c| c.set(false));
                 let first_fail = sink.calls.iter().position(|c| !c.1);
                 let held: String = sink.calls.iter().filter(|c| c.1).map(|c| c.0.as_str()).collect();
                 let ok = match &res {
